@@ -26,13 +26,18 @@ class StatementConsistency(Obligation):
     def __init__(self,seed=0,known=(),rate=6,**kw):
         self.seed=seed; self.rate=rate
         self.bounds={'statement':'_type fixed to the v0.1 URI, subject with one product (free digest)','declared predicateType':'each of the three known URIs, and one unknown URI',
-                     'predicate document':'minimal and non-minimal documents of each of the three formats with free string leaves, plus hybrids (union of members of two formats, empty object)'}
+                     'predicate document':'minimal and non-minimal documents of each of the three formats with free string leaves, plus hybrids (union of members of two formats, empty object)','history':'nothing / a valid v0.1 statement / a valid naive statement parsed earlier in the same process'}
         self.witnesses=['accepted_consistent','rejected']; self.seen=set()
     def setup(self,eng,tier):
         self.eng=eng; self.b=B(eng); self.from_value=eng.find_method(None,'PredicateWrapper','from_value')
     def entry(self,eng):
         def go(run,args):
             doc,pdoc=args
+            # history: another (valid) statement may have been parsed earlier in the process; nothing remembered from it may change the verdict
+            h=run.ghost.get('stmt_history')
+            if h is not None:
+                try: md.de_type(eng,run,'StatementWrapper',clone_val(h),'tree')
+                except md.DeFail: pass
             try: st=('ok',md.de_type(eng,run,'StatementWrapper',clone_val(doc),'tree'))
             except md.DeFail as d: st=('err',None)
             acc=[]
@@ -59,8 +64,13 @@ class StatementConsistency(Obligation):
         pk=run.pick(4,'ptype')
         puri=URIS[VERS[pk]] if pk<3 else 'https://example.com/unknown'
         doc=jobj([('_type',jstr('https://in-toto.io/Statement/v0.1')),('subject',jobj([('p',jobj([('sha256',jstr('0a'))]))])),('predicateType',jstr(puri)),('predicate',clone_val(pdoc))])
-        for x in run.ghost.get('sym',[]): pass
-        return (doc,pdoc),{'doc':doc,'pdoc':pdoc,'fmt':fmt,'declared':VERS[pk] if pk<3 else None}
+        hk=run.pick(3,'history')
+        bp=jobj([('return-value',jnum('PosInt',Int(64,False,0))),('stderr',jstr('')),('stdout',jstr(''))])
+        linkp=jobj([('name',jstr('n')),('materials',jobj([])),('env',jnull()),('command',jarr([])),('byproducts',bp)])
+        valid_v01=jobj([('_type',jstr('https://in-toto.io/Statement/v0.1')),('subject',jobj([])),('predicateType',jstr(URIS['LinkV0_2'])),('predicate',linkp)])
+        valid_naive=jobj([('_type',jstr('link')),('name',jstr('n')),('materials',jobj([])),('products',jobj([])),('env',jnull()),('command',jarr([])),('byproducts',bp)])
+        run.ghost['stmt_history']=[None,valid_v01,valid_naive][hk]
+        return (doc,pdoc),{'doc':doc,'pdoc':pdoc,'fmt':fmt,'declared':VERS[pk] if pk<3 else None,'history':[None,valid_v01,valid_naive][hk]}
     def check(self,run,out,g):
         rec={'outcome':'?','viol':None,'wit':[],'sample':None,'obl':1}
         if out[0]!='ret':
@@ -69,6 +79,7 @@ class StatementConsistency(Obligation):
         rec['outcome']=st
         r,m=run.check_sat(z3.BoolVal(True))
         scn={'kind':'statement','doc':json_py(g['doc'],m),'pdoc':json_py(g['pdoc'],m)}
+        if g.get('history') is not None: scn['parsed_before']=json_py(g['history'],m)
         nacc=sum(acc)
         if nacc>1:
             rec['viol']={'kind':'predicate_matches_several_formats','known_key':None,'scenario':scn,'predicted':'accepted_by:%d'%nacc,'what':'a predicate document is accepted by %d format versions'%nacc}; return rec
